@@ -380,7 +380,7 @@ DROPPED = ["numeric content of CasADi objects"]
 EXPLANATION = "Reconstruction contract of load_model incl. row correspondence for all variable shapes."
 MANIFEST = {
     "category": "proof",
-    "text": "load_model's reconstruction is executed symbolically on an arbitrary stored dictionary (symbolic variable shapes, symbolic dependency code): lists, names, shapes, types, aliases, plain attributes, outputs, delay states, alias relation, string lists and functions are restored as stored, and an MX attribute of variable i is read from exactly the rows that belong to variable i (prefix sum of element counts) in the attribute's column, from the parameter-dependent or the independent evaluation according to the stored code. Variable.to_dict/from_dict round trip is verified. The real save_model and the real load_model are also executed in sequence (load of exactly what save dumped): variables, order, shapes, types, aliases, plain attributes, the dependent/independent classification of MX attributes and their row ranges, and the stored lists and functions survive the round trip. A bounded replay compares real cached models with fresh compiles numerically.",
+    "text": "load_model's reconstruction is executed symbolically on an arbitrary stored dictionary (symbolic variable shapes, symbolic dependency code): lists, names, shapes, types, aliases, plain attributes, outputs, delay states, alias relation, string lists and functions are restored as stored, and an MX attribute of variable i is read from exactly the rows that belong to variable i (prefix sum of element counts) in the attribute's column, from the parameter-dependent or the independent evaluation according to the stored code. Variable.to_dict/from_dict round trip is verified. The real save_model and the real load_model are also executed in sequence (load of exactly what save dumped): variables, order, shapes, types, aliases, plain attributes, the dependent/independent classification of MX attributes and their row ranges, and the stored lists and functions survive the round trip. A bounded replay compares real cached models with fresh compiles numerically. An accepted cache was written for every requested option value, also for options outside pymoca's default table.",
     "note": "Assumed: pickle and CasADi serialisation, metadata matrix layout (C13); variable counts per category enumerated up to 2; delay reconstruction only in the bounded replay.",
     "technique": "contract-based deductive verification: whole-function symbolic execution with recording stubs for the metadata matrices, linear integer VCs (prefix sums), z3",
 }
